@@ -684,6 +684,7 @@ def run(chk):
     request_hook_rule(chk, P, "C12.R4:request-hook")
     from . import shapes
     shapes.tls_iff_https(chk, P, "C12.R4:tls-iff-https")
+    shapes.response_read_to_end(chk, P, "C12.R5:response-read-to-end")
     _call = lambda nm: (lambda o, b: o[0] == "call" and o[1].callee.get("name") == nm)
     shapes.returns_binop(chk, P, "C12.R10:content-length", "the declared content length of a request is its framing prefix plus its payload",
                          "emit_otlp::client::http::HttpContent::content_len", "Add", _call("content_frame_len"), _call("content_payload_len"),
